@@ -431,9 +431,22 @@ def _asf_inner(c, A, K):
             c.forall(["id"], lambda f: z3.Implies(z3.And(sel(S.ek, f), f != e, c.intlike(f)), c.int_of(f) < S.uid)),
             z3.Implies(z3.And(auto, c.intlike(e)), c.int_of(e) < S.uid), only_added(c, S, S0))),
         G("pending", ("C03",), z3.And(faces_ok(c, F, mo), faces_closed(c, F))),
+    ] + _mono_hints(c, K, K.outer.S if K.outer is not None else None, e) + [
         G("closed", ("C03",), closed_upto_skip(c, S, F, e)),
         G("max-order", ("C03",), within_max_order(c, S, S0, mo)),
     ]
+
+
+def _mono_hints(c, K, Sh, e):
+    """Lemma for the entry obligation: every simplex of the enclosing loop's head state is still
+    present with the same members (only simplex e was stored since)."""
+    if getattr(K, "phase", None) != "entry" or Sh is None:
+        return []
+    S = K.S
+    return [G("hint:kept", ("C03",), z3.And(
+        c.forall(["id"], lambda f: z3.Implies(sel(Sh.ek, f), z3.And(sel(S.ek, f), sel(S.E, f) == sel(Sh.E, f), f != e))),
+        c.forall(["id"], lambda f: z3.Implies(z3.And(sel(S.ek, f), f != e), sel(Sh.ek, f))))),
+        G("hint:has-monotone", ("C03",), c.forall(["set"], lambda T: z3.Implies(has_simplex(c, Sh, T), has_simplex(c, S, T))))]
 
 
 def _asf_faces(c, A, K):
@@ -459,6 +472,8 @@ s = std(contract(SCQ + "add_simplices_from", [("self", "net:SC"), ("ebunch_to_ad
 s.req("Closed", lambda c, A: SClosed(c, A.S0), ("C03",))
 s.ens("Closed", ("C03",), lambda c, A, R: SClosed(c, R.S))
 s.req("max_order-int-or-none", lambda c, A: z3.Or(A.max_order.term == c.NONE, c.is_int(A.max_order.term)), ("C03",))
+s.timeout_ms = 120000  # closure obligations with set-valued quantifiers
+s.skip_ground_quick = True  # a 4-id universe cannot hold a simplex, its faces and their tuple ids: the ground pass is vacuous here
 s.loop("for idx, members in ebunch_to_add.items()", _asf_outer)
 s.loop("for members in faces", _asf_faces)
 s.loop("while True", _asf_outer)
